@@ -167,9 +167,22 @@ def build(uni, hist, now, validated=True, snapshots=None, lookups=None):
     fc.add(uni.root)
     if snapshots is not None:
         snapshots.append(cs)
+    wal = None
+    if lookups == 'wallet':
+        # a wallet (one long-lived object holding K0 and K1) builds two small spends on the current state between any two
+        # arrivals, as a user sending coins while the node runs: reading the ledger must not write to it
+        from skepticoin.wallet import Wallet
+        wal = Wallet({K[0].pub: K[0].priv, K[1].pub: K[1].priv}, [], {})
     for p in hist:
         n = uni.get(p)
-        if lookups:
+        if wal is not None:
+            from skepticoin.wallet import create_spend_transaction
+            for amt in (1, 3):
+                try:
+                    create_spend_transaction(wal, cs, amt, 0, K[2].pk, K[1].pk)
+                except Exception:
+                    pass
+        elif lookups:
             try:
                 for bid in ([cs.current_chain_hash] if lookups == 'head' else list(cs.block_by_hash.keys())):
                     cs.public_key_balances_by_hash[bid]
@@ -180,6 +193,13 @@ def build(uni, hist, now, validated=True, snapshots=None, lookups=None):
         fc.add(n)
         if snapshots is not None:
             snapshots.append(cs)
+    if wal is not None:
+        from skepticoin.wallet import create_spend_transaction
+        for amt in (1, 3):
+            try:
+                create_spend_transaction(wal, cs, amt, 0, K[2].pk, K[1].pk)
+            except Exception:
+                pass
     return cs, fc
 
 
